@@ -3,5 +3,10 @@ contract modules that must be loaded to decide it."""
 PROPS = {
     'C12': ['contracts.c12_cbc_check', 'contracts.recordlayer'],
     'C01': ['contracts.c12_cbc_check', 'contracts.recordlayer'],
-    'C02': ['contracts.c12_cbc_check', 'contracts.recordlayer'],
+    'C02': ['contracts.c12_cbc_check', 'contracts.recordlayer', 'contracts.m2_recordlayer'],
+    'C18': ['contracts.sessioncache'],
+    'C19': ['contracts.settings'],
+    'C20': ['contracts.suites'],
+    'C03': ['contracts.suites'],
+    'C05': ['contracts.m2_client13'],
 }
